@@ -315,3 +315,18 @@ Definition observe (s : state) :=
 (* erase the ghost history (state-space exploration identifies states up to history) *)
 Definition erase (s : state) : state :=
   mkS (s_th s) (s_open s) (s_rem s) (s_q s) (s_rcb s) (s_lcb s) (s_lock s) [].
+
+(* ---- several runs in one process.  reset_socket_hub() re-initialises the hub object (`__init__`
+   on the live object: fresh sets, queues, callback tables and lock); the next run brings its own
+   threads.  Whatever the previous run left behind — unreceived messages, keys of endpoints that
+   never disconnected, callbacks, even a held lock — is gone; the history of the new run starts
+   empty.  (Not modelled: a reset while threads of the earlier run are still inside the hub.) *)
+Definition reset (s : state) (cfg : list (key * bool * list op)) : state :=
+  mkS (map mk_thread cfg) [] [] [] [] [] None [].
+
+(* a history: (configuration, schedule) per run, a reset before each *)
+Fixpoint run_history (v : variant) (s : state) (h : list (list (key * bool * list op) * list nat)) : state :=
+  match h with
+  | [] => s
+  | (cfg, sch) :: r => run_history v (run v (reset s cfg) sch) r
+  end.
